@@ -1650,10 +1650,10 @@ Proof.
   rewrite (passes_nohdr_subst (req_names s) Hrp q _ Hwf). fold (req_segs s). unfold req_segs at 1. rewrite E. reflexivity.
 Qed.
 
-Theorem convert_hdr_subst : forall q kwd word s hdr, req_in_grammar s = true -> fast_single_ok kwd word s = false ->
-  convert_hdr q kwd word s hdr = restore s (toks (subst_segs (req_names s) (hdr_ctes q word (req_names s) (req_toks s)) hdr false (req_segs s))).
+Theorem convert_hdr_subst : forall q kwd word fn s hdr, req_in_grammar s = true -> fast_single_gen kwd word fn s = false ->
+  convert_hdr q kwd word fn s hdr = restore s (toks (subst_segs (req_names s) (hdr_ctes q word (req_names s) (req_toks s)) hdr false (req_segs s))).
 Proof.
-  intros q kwd word s hdr H Hf. destruct (in_grammar_facts _ _ H) as (E & Hwf & Hrp).
+  intros q kwd word fn s hdr H Hf. destruct (in_grammar_facts _ _ H) as (E & Hwf & Hrp).
   unfold convert_hdr, restore. rewrite Hf. cbv zeta. fold (req_names s) (req_toks s).
   replace (passes_hdr q word (req_names s) hdr (req_toks s)) with (passes_hdr q word (req_names s) hdr (toks (segs_of (req_toks s)))) by (rewrite E; reflexivity).
   rewrite (passes_hdr_subst (req_names s) Hrp q word hdr _ Hwf). fold (req_segs s). unfold req_segs at 1. rewrite E. reflexivity.
@@ -1686,7 +1686,7 @@ Proof.
 Qed.
 
 Theorem gate_transform_hdr : forall fx s hdr chk rt text, req_in_grammar s = true -> hdr <> [] ->
-  fast_single_ok (fx_single fx) (fx_with fx) s = false -> req_hdr_ctes fx s = req_ctes fx s ->
+  fast_single_gen (fx_single fx) (fx_with fx) (fx_fastname fx) s = false -> req_hdr_ctes fx s = req_ctes fx s ->
   gate_gen fx s hdr = OExec chk rt text -> rt = Transformed ->
   text = restore s (toks (subst_segs (req_names s) (req_hdr_ctes fx s) hdr false (req_segs s)))
   /\ forall r, In r (rewritten_refs (req_names s) (req_hdr_ctes fx s) hdr false (req_segs s)) -> covers chk r = true.
@@ -1718,7 +1718,7 @@ Proof.
 Qed.
 
 Theorem gate_current_hdr : forall s hdr chk rt text, req_in_grammar s = true -> hdr <> [] ->
-  fast_single_ok true true s = false ->
+  fast_single_gen true true true s = false ->
   gate_gen fx_all s hdr = OExec chk rt text ->
   rt = Transformed
   /\ text = restore s (toks (subst_segs (req_names s) (req_ctes fx_all s) hdr false (req_segs s)))
@@ -1726,8 +1726,8 @@ Theorem gate_current_hdr : forall s hdr chk rt text, req_in_grammar s = true -> 
 Proof.
   intros s hdr chk rt text Hg Hh Hf H. destruct (gate_exec_inv _ _ _ _ _ _ H) as (-> & -> & ->).
   destruct (in_grammar_facts _ _ Hg) as (E & Hwf & Hrp). unfold req_ctes. split; [reflexivity|]. split.
-  - unfold executed_text. cbn [fx_all fx_noraw fx_cteq fx_single fx_with route_of].
-    destruct hdr as [|h0 hdr']; [congruence|]. rewrite (convert_hdr_subst true true true s _ Hg Hf). reflexivity.
+  - unfold executed_text. cbn [fx_all fx_noraw fx_cteq fx_single fx_with fx_fastname route_of].
+    destruct hdr as [|h0 hdr']; [congruence|]. rewrite (convert_hdr_subst true true true true s _ Hg Hf). reflexivity.
   - intros r Hr. cbn [fx_all fx_cteq fx_dedup]. rewrite <- E.
     apply (coverage_hdr_exact true true (req_names s) hdr _ Hwf Hh eq_refl). unfold req_segs in Hr. rewrite E. exact Hr.
 Qed.
